@@ -332,6 +332,15 @@ func checkXslices(s []int) {
 			}
 		}
 	}
+	{
+		want := 0
+		for _, x := range s {
+			want = want*7 + x + 1
+		}
+		if got := xslices.Reduce(s, 0, func(acc, x int) int { return acc*7 + x + 1 }); got != want || !eq(s, orig) {
+			fail("xslices/Reduce", "Reduce(%v) = %d, want %d (left to right from the initial value)", orig, got, want)
+		}
+	}
 	if got := xslices.Repeat(5, n); len(got) != n || xslices.Count(got, 5) != n {
 		fail("xslices/Repeat", "Repeat(5,%d) = %v", n, got)
 	}
@@ -526,6 +535,34 @@ func mask(s xmaps.Set[int]) int {
 }
 
 func checkXmaps() {
+	// Set methods against a plain map
+	for _, a := range subsets(4) {
+		for x := 0; x < 5; x++ {
+			atomic.AddInt64(&cases, 1)
+			_, in := a[x]
+			if a.Contains(x) != in {
+				fail("xmaps/Set.Contains", "%v.Contains(%d) = %v", a, x, a.Contains(x))
+			}
+			b := xmaps.Set[int]{}
+			for k := range a {
+				b.Add(k)
+			}
+			b.Add(x)
+			if !b.Contains(x) || len(b) != len(a)+map[bool]int{true: 0, false: 1}[in] {
+				fail("xmaps/Set.Add", "%v after Add(%d) = %v", a, x, b)
+			}
+			b.Remove(x)
+			b.Remove(x) // removing an absent item is a no-op
+			if b.Contains(x) || len(b) != len(a)-map[bool]int{true: 1, false: 0}[in] {
+				fail("xmaps/Set.Remove", "%v after Add(%d), Remove(%d) = %v", a, x, x, b)
+			}
+			for k := range a {
+				if k != x && !b.Contains(k) {
+					fail("xmaps/Set.Remove", "Remove(%d) also removed %d from %v", x, k, a)
+				}
+			}
+		}
+	}
 	subs := subsets(4)
 	for _, a := range subs {
 		for _, b := range subs {
@@ -896,6 +933,9 @@ func checkXrandStructure(maxN int, seeds int) {
 					if g := xrand.SampleIterator(iterator.Slice(items), k); len(g) != want || !distinctIn(g, n) {
 						fail("xrand/SampleIterator", "SampleIterator(n=%d,%d) = %v", n, k, g)
 					}
+					if g, err := xrand.SampleStream(context.Background(), stream.FromIterator(iterator.Slice(items)), k); err != nil || len(g) != want || !distinctIn(g, n) {
+						fail("xrand/SampleStream", "SampleStream(n=%d,%d) = %v, %v", n, k, g, err)
+					}
 				}
 			}
 		}
@@ -904,6 +944,13 @@ func checkXrandStructure(maxN int, seeds int) {
 			xrand.RShuffle(rand.New(rand.NewSource(int64(seed))), c)
 			if len(c) != n || !distinctIn(c, n) {
 				fail("xrand/Shuffle", "RShuffle(seed %d) of %v = %v", seed, items, c)
+			}
+			if seed < 32 {
+				c2 := clone(items)
+				xrand.Shuffle(c2) // the package-level function draws from the global source: structure only
+				if len(c2) != n || !distinctIn(c2, n) {
+					fail("xrand/Shuffle", "Shuffle of %v = %v", items, c2)
+				}
 			}
 		}
 	}
